@@ -15,7 +15,7 @@ var kvProps = map[string]bool{"ALL": true, "C01": true, "C05": true, "C06": true
 // schedPlans: scenario-name prefixes per property.
 var schedPlans = map[string][]string{
 	"C02": {"R-", "L-"},
-	"C03": {"S1-", "S2-", "S3-", "S4-", "S5-", "S6-", "S7-", "S8-", "S9-", "S10-", "L-wux", "L-update"},
+	"C03": {"S1-", "S2-", "S3-", "S4-", "S5-", "S6-", "S7-", "S8-", "S9-", "S10-", "S11-", "L-wux", "L-update"},
 	"C08": {"F-"},
 	"C09": {"B-"},
 	"C15": {"K-"},
@@ -24,7 +24,7 @@ var schedPlans = map[string][]string{
 	"C13": {"O-"},
 	"C04": {"H-"},
 	"C17": {"V-"},
-	"C16": {"T-"},
+	"C16": {"T-", "O-lastclose", "B-two-starts"},
 }
 
 type genPlan struct {
